@@ -116,7 +116,9 @@ Proof. vm_compute. reflexivity. Qed.
 
 (* Per-run obligations on the regenerated attribute read/write sets of PandoraMachine, for the
    four values of (multiscale?, right products?): run_prepare reads no attribute but the
-   persistent pair (right_disp_map, step) and assigns both products; matching_cost_prepare and
+   persistent `step`, assigns both products and right_disp_map on every path (the callbacks all read
+   right_disp_map: a run_prepare that keeps the request of an earlier pipeline fails this
+   obligation); matching_cost_prepare and
    matching_cost_run read only what run_prepare or they themselves assigned; every other run
    callback reads only that (run_multiscale is exempt when there is no multiscale). *)
 Definition skip_of (multi : bool) : list string := if multi then [] else multiscale_callbacks.
@@ -128,12 +130,15 @@ Theorem C18_run_attrs_covered :
           [(false, false); (false, true); (true, false); (true, true)] = true.
 Proof. vm_compute. reflexivity. Qed.
 
-(* the attributes a run does not recompute are exactly these two; both are initialised by
-   __init__ (so a fresh machine has them) *)
+(* the only attribute a run reads without recomputing it is `step` (assigned by
+   matching_cost_check_conf, initialised by __init__); right_disp_map is reassigned by
+   run_prepare on every path *)
 Theorem C18_persistent_attributes :
-  persist = ["right_disp_map"; "step"]%string /\ subset_s persist attrs_init = true /\
+  persist = ["step"]%string /\ subset_s persist attrs_init = true /\
+  mem_s "right_disp_map" (cb_must (prepare_info false)) = true /\
+  mem_s "right_disp_map" (cb_must (prepare_info true)) = true /\
   returned_attrs = products.       (* pandora.run returns exactly the two product attributes *)
-Proof. split; [reflexivity|split; vm_compute; reflexivity]. Qed.
+Proof. split; [reflexivity|repeat split; vm_compute; reflexivity]. Qed.
 
 (* class-level / module-level dictionaries written by check/run code: every writer overwrites
    the same keys before validating *)
@@ -145,8 +150,8 @@ Section C18_history.
   Variable sem : string -> Z -> store value -> store value. (* meaning of each run callback (name, configured step) *)
   Variable prep_sem : store value -> store value.         (* meaning of run_prepare for the given cfg and inputs *)
 
-  (* The products of pandora.run are a function of (pipeline, inputs, right_disp_map, step):
-     two machines in ARBITRARY states that agree on the persistent pair -- a fresh one and one
+  (* The products of pandora.run are a function of (pipeline, inputs, step):
+     two machines in ARBITRARY states that agree on `step` -- a fresh one and one
      that went through any calls -- return the same left and right products, for every
      accepted pipeline, number of scales, and every meaning of the callbacks that respects the
      regenerated frames (reads / assigns / may assign; attributes read may be mutated in place). *)
@@ -185,20 +190,22 @@ End C18_history.
 Section C18_calls.
   Variable step_ok : step -> bool -> bool.   (* parameter validity of each step (C05) *)
 
-  (* Every history of check / run calls of one accepted pipeline on one machine (fresh, or left
-     by any such history): every run has the same callback trace and its callbacks read the
-     same persistent pair: right_disp_map set iff a validation step is configured, step = 1.
+  (* Every history of check / run calls of one accepted pipeline on one machine -- fresh, or
+     left clean by ANY earlier successful checks / runs of ANY pipelines (with or without a
+     validation step: check_conf and run_prepare reassign right_disp_map) --: every run has the
+     same callback trace and its callbacks read the same persistent pair: right_disp_map set iff
+     a validation step is configured in THIS pipeline, step = 1.
      Hypothesis [mc_step = 1]: the `step` parameter of the matching-cost step is 1 (anything
      else is refused by AbstractMatchingCost.check_conf unless pandora2d is loaded). *)
   Theorem C18_rerun_same_trace_and_persistent_pair : forall n p d h m,
-    clean m -> (m_rdm m = true -> has_kind Val p = true) ->
-    path_ok Begin p = Some d -> accept_b step_ok (has_kind Val p) p = true ->
+    clean m ->
+    path_ok Begin p = Some d -> accept_b step_ok p = true ->
     (n >= 1)%nat -> ((n > 1)%nat -> has_kind Msc p = true) ->
     hhistory check_table run_table step_ok 1 n p (m, 1%Z) h = map (hexpected n p) h.
   Proof.
-    intros n p d h m Hm Hr Hp Ha Hn Hms.
+    intros n p d h m Hm Hp Ha Hn Hms.
     exact (hhistory_spec check_table run_table step_ok C01_check_table_wf_C18 C01_run_table_wf_C18 1
-             n p d h m 1%Z Hm Hr eq_refl eq_refl Hp Ha Hn Hms).
+             n p d h m 1%Z Hm eq_refl eq_refl Hp Ha Hn Hms).
   Qed.
 
   (* The same with calls on OTHER machine objects of the process interleaved arbitrarily (any
@@ -208,9 +215,9 @@ Section C18_calls.
   Variable mc_step_of : list step -> Z.
   Theorem C18_rerun_same_result_any_interleaving : forall a n p d ops (w : world),
     (forall o, In o ops -> w_mid o = a -> w_n o = n /\ w_p o = p) ->
-    clean (fst (w a)) -> (m_rdm (fst (w a)) = true -> has_kind Val p = true) -> snd (w a) = 1%Z ->
+    clean (fst (w a)) -> snd (w a) = 1%Z ->
     mc_step_of p = 1%Z ->
-    path_ok Begin p = Some d -> accept_b step_ok (has_kind Val p) p = true ->
+    path_ok Begin p = Some d -> accept_b step_ok p = true ->
     (n >= 1)%nat -> ((n > 1)%nat -> has_kind Msc p = true) ->
     whistory check_table run_table step_ok mc_step_of a w ops
     = map (hexpected n p) (map w_call (filter (fun o => Z.eqb (w_mid o) a) ops)).
@@ -301,7 +308,7 @@ Definition ex_ops : list wop :=
   [mkWop 7 HRun 2 ex_p; mkWop 3 HCheck 1 ex_bad; mkWop 7 HCheck 2 ex_p; mkWop 3 HRun 1 ex_other;
    mkWop 7 HRun 2 ex_p; mkWop 3 HCheck 1 ex_other; mkWop 7 HRun 2 ex_p].
 Example C18_history_example_hyps :
-  path_ok Begin ex_p = Some DispMap /\ accept_b (fun _ _ => true) (has_kind Val ex_p) ex_p = true /\
+  path_ok Begin ex_p = Some DispMap /\ accept_b (fun _ _ => true) ex_p = true /\
   has_kind Msc ex_p = true /\
   whistory check_table run_table (fun _ _ => true) (fun p => if Nat.eqb (List.length p) 3 then 2%Z else 1%Z)
            7 (fun _ => (machine0, 1%Z)) ex_ops
